@@ -97,12 +97,11 @@ impl Matcher for FileSystemMatcher {
         match get_file_system_type(file_info.path(), &self.cache) {
             Ok(result) => result == self.fs_text,
             Err(_) => {
-                writeln!(
+                let _ = writeln!(
                     &mut stderr(),
                     "Error getting filesystem type for {}",
                     file_info.path().to_string_lossy()
-                )
-                .unwrap();
+                );
 
                 false
             }
